@@ -5,7 +5,7 @@
 (* out of the VIEW.                                                       *)
 EXTENDS GroupSub, TLC
 
-CONSTANTS Consumers, MaxEpoch, MaxSubs, MaxOps, UsePlain, UseBad
+CONSTANTS Consumers, MaxEpoch, MaxSubs, MaxOps, UsePlain, UseBad, UseBurst
 VARIABLES last, nOps
 mcvars == <<vars, last, nOps>>
 
@@ -20,11 +20,19 @@ MCSubscribe(g, c, e, bad) ==
   /\ DoSubscribe(g, c, e, bad)
   /\ Step([a |-> "Subscribe", g |-> g, c |-> c, e |-> e, bad |-> bad])
 
+\* two consumers subscribe at the same time
+MCBurst(g, c1, c2, e) ==
+  /\ UseBurst /\ c1 # c2
+  /\ Len(subs) + 2 <= MaxSubs
+  /\ DoBurst(g, <<c1, c2>>, e)
+  /\ Step([a |-> "Burst", g |-> g, cs |-> <<c1, c2>>, e |-> e])
+
 MCCancel(s) == DoCancelByClient(s) /\ Step([a |-> "Cancel", s |-> s])
 MCLoopExit(s) == DoLoopExit(s) /\ Step([a |-> "LoopExit", s |-> s])
 
 MCNext ==
   \/ \E g \in Groups \cup {NoGroup}, c \in Consumers, e \in 1..MaxEpoch, bad \in BOOLEAN : MCSubscribe(g, c, e, bad)
+  \/ \E g \in Groups, c1 \in Consumers, c2 \in Consumers, e \in 1..MaxEpoch : MCBurst(g, c1, c2, e)
   \/ \E s \in 1..MaxSubs : MCCancel(s)
   \/ \E s \in 1..MaxSubs : MCLoopExit(s)
 
@@ -34,6 +42,7 @@ MCSpec == MCInit /\ [][MCNext]_mcvars
 StepOK ==
   LET a == last' IN
   CASE a.a = "Subscribe" -> P_Subscribe(a.g, a.c, a.e, a.bad)
+    [] a.a = "Burst" -> P_Burst(a.g, a.cs, a.e)
     [] a.a = "Cancel" -> P_Cancel(a.s)
     [] a.a = "LoopExit" -> P_LoopExit(a.s)
     [] OTHER -> TRUE
